@@ -19,7 +19,11 @@ META = {
             "double, with scalars, unary minus, eval, + - , scalar*x, x*scalar, x/scalar and the diadic product; operands and "
             "destinations are plain objects or views (map on pointers and on tvector with offset, const views, slice, "
             "row_view, column_view, submatrix_view, CoalescedView, StridedCoalescedView, ViewsArray elements incl. strided, "
-            "StridedCoalescedViewsArray elements, map_derivative, map_derivative_strided). Each program runs on fresh random "
+            "StridedCoalescedViewsArray elements, map_derivative, map_derivative_strided). A fixed quota of the programs (28 of 128 / "
+            "108 of 600) is reserved for the partial views row_view<I,J,K>, column_view<I,J,K>, submatrix_view<I,J,R,C> (and the "
+            "full row / column views, tvector slices; const and non-const overloads) of NON-SQUARE tmatrix<N,M>, with K = 1, an "
+            "interior K and the maximal K, as element reads, destination of = += *=, destination aliased with the right-hand "
+            "side, next to another sub-view of the same matrix, and const view read into a plain object. Each program runs on fresh random "
             "operand values per draw; the destination must equal the naive element-wise value BITWISE (same IEEE operations "
             "in the same association; only `/= s`, which the library implements as a multiplication by 1/s, gets 64 ulp), "
             "every other cell of every store must be untouched, and ASan/UBSan/assert must stay silent. Aliasing: the "
@@ -133,6 +137,15 @@ def run(ctx):
             ctx.count("rhs:" + k)
         if i["mode"] == 2:
             ctx.count("programs_recorded_only(overlapping views)")
+    # sub-view quota (lib/etgen.py, SUBVIEW_TABLE): partial views of NON-SQUARE matrices
+    sv = [i for i in infos if "subview" in i]
+    ctx.cov["subview_programs"] = len(sv)
+    for i in sv:
+        x = i["subview"]
+        ctx.count("subview:%s:%s:K=%s" % (x["which"], x["use"], x["kmode"]))
+    for w in ("col3", "row3", "sub"):
+        big = [i for i in sv if i["subview"]["which"] == w and i["subview"]["kmode"] != "1"]
+        ctx.require(len(big) >= 3, "fewer than 3 programs exercise the partial view '%s' with K >= 2 on a non-square matrix" % w)
     for i in infos[:6]:
         ctx.sample({"program": i["statement"], "T": i["T"], "api": i["api"], "stratum": i["stratum"]}, cap=14)
     ctx.assumptions += [
